@@ -339,7 +339,9 @@ def render_elem(e) -> str:
         v = e[1]
         printable = all(0x20 <= ord(c) <= 0x7E and c != '"' for c in v)
         if printable:
-            return ('%s"' if e[2] else '"') + v + '"'
+            # both spellings of the RFC 7405 markers are legal (the marker itself is case-insensitive): vary them
+            mark = ('%S"' if (len(v) + sum(map(ord, v))) % 2 else '%s"') if e[2] else ('%I"' if v and ord(v[0]) % 3 == 0 else ('%i"' if v and ord(v[0]) % 3 == 1 else '"'))
+            return mark + v + '"'
         if not v:
             return '""'
         if e[2]:
